@@ -84,6 +84,7 @@ func genC05(seed uint64, withSpec bool) *Scenario {
 		sc.Pool.Mode = rt.PoolLIFO
 	}
 	coeRun := r.Chance(300) // runs exercising the package-level option setter
+	deepPair := withSpec && r.Chance(350)
 	uid := uint32(0)
 	bp := func(b bool) *bool { return &b }
 	// swarm knob: more distinct patterns than any plausible bound of the regexp cache (eviction paths of a bounded cache)
@@ -119,7 +120,16 @@ func genC05(seed uint64, withSpec bool) *Scenario {
 			var op Op
 			switch x := r.Intn(100); {
 			case specTask:
+				// concurrent whole-spec validations: what one of them counts or limits must not add up with the other's
+				deepDocsPM = 30
+				if deepPair {
+					deepDocsPM = 1000
+				}
 				op = specOp(r)
+				if deepPair && strings.HasPrefix(op.Doc, "@fx:") {
+					op = specOp(r) // (a fixture was drawn: once more)
+				}
+				deepDocsPM = 30
 				op.FromFile = false
 				op.SharedMeta = false // a schema object shared between goroutines must not contain unexpanded $ref (outside C05)
 				if op.Kind == KSpecOne && coeRun {
